@@ -38,6 +38,7 @@ fn spawned_syscall_state_and_effects()
     world.get_mut::<SpawnedSystem<In<u8>, u8>>(id.entity()).unwrap().system = None;
     assert!(spawned_syscall::<In<u8>, u8>(&mut world, id, x).is_err() && world.resource::<Hits>().0 == 3, "C17: calling a running system is an error and runs nothing");
     std::mem::forget(world);
+    kani::cover!(true, "end of harness reached");
 }
 
 pub struct Me(pub Entity);
@@ -62,4 +63,5 @@ fn spawned_syscall_self_despawn_returns_output()
     assert!(spawned_syscall::<In<u8>, u8>(&mut world, id, x) == Ok(x + 1), "C17: the system ran once, so its output is returned even though its entity is gone");
     assert!(!world.m_alive(id.entity()) && world.resource::<Hits>().0 == 1, "C17: its commands were applied before returning");
     std::mem::forget(world);
+    kani::cover!(true, "end of harness reached");
 }
